@@ -1,6 +1,19 @@
-(* C14_more_proofs.v — further invariance theorems for C14: every rule's specification predicate is
-   invariant under permutation of argument lists (fields and directives), of the variable
-   definitions of an operation and of the selections of a selection set. *)
+(* C14_more_proofs.v — further invariance theorems for C14, for every rule's specification predicate
+   [violated r s d] and (through the per-rule equivalences) for the model's rules:
+     (b) the selections of selection sets permuted               perm_sels_doc
+     (c) the argument lists of fields and directives permuted    perm_args_doc
+     (c) the variable definitions of operations permuted         perm_vars_doc  (the variable-position rule
+         needs unique variable names: perm_vars_needs_unique_variable_names)
+     (d) operations renamed injectively                          rename_ops_doc fo
+     (d) aliases rewritten, response-key equalities preserved    rename_aliases_doc h
+   All are instances of ONE relation [rdoc ren hk pa pv ps d d'] (Section Rel): d' is d where
+     - every operation name n is replaced by ren n,
+     - every field's alias is replaced such that its response key k becomes h k (hk = Some h; None: unchanged),
+     - argument lists (pa), variable definitions (pv), selection lists (ps) are permuted where the flag
+       is true and equal where it is false ([lperm]);
+   and of ONE theorem, [violated_rel].  Field merging and single-field subscriptions go through
+   [dfs_rel]: a depth-first collection that expands every named fragment at most once returns the
+   same fields and visits the same fragments, whatever the order of the selections. *)
 From GT Require Import Visitor Validate Merge.
 From Coq Require Import Permutation.
 From GTS Require Import Annot WfSchema SpecCollect SpecRules SpecValues SpecMerge SpecValid.
@@ -130,7 +143,24 @@ Proof. destruct b; cbn [lperm]; [exact (fun H => H)|intros ->; apply Permutation
 Lemma lperm_refl {A} b (l : list A) : lperm b l l.
 Proof. destruct b; cbn [lperm]; [apply Permutation_refl|reflexivity]. Qed.
 
+Definition is_field_sel (x : selection) : bool := match x with SField _ _ _ _ _ _ _ => true | _ => false end.
+(* the response key of a field with alias al and name n *)
+Definition field_key (al : option name) (n : name) : name := match al with Some a => a | None => n end.
+Definition kmap (hk : option (name -> name)) (k : name) : name := match hk with Some h => h k | None => k end.
+Definition key_injective (hk : option (name -> name)) : Prop := forall a b, kmap hk a = kmap hk b -> a = b.
+Lemma key_injective_none : key_injective None.
+Proof. intros a b H. exact H. Qed.
+Lemma name_eqb_kmap hk a b : key_injective hk -> name_eqb (kmap hk a) (kmap hk b) = name_eqb a b.
+Proof.
+  intro Hi. apply bool_iff_eq. rewrite !name_eqb_eq. split; [apply Hi|intros ->; reflexivity].
+Qed.
+
 Section Rel.
+  (* how operation names are rewritten (the identity for the permutations) *)
+  Variable ren : option name -> option name.
+  (* how response keys are rewritten: None = aliases unchanged, Some h = the field with response key k
+     gets an alias such that its response key is h k *)
+  Variable hk : option (name -> name).
   (* which lists may be permuted: argument lists, variable definitions, selections *)
   Variables pa pv ps : bool.
 
@@ -138,10 +168,16 @@ Section Rel.
   | RDir p n args args' : lperm pa args args' -> rdir (mkDirective p n args) (mkDirective p n args').
   Definition rdirs : list directive -> list directive -> Prop := Forall2 rdir.
 
+  Definition ralias (al al' : option name) (n : name) : Prop :=
+    match hk with
+    | None => al' = al
+    | Some h => field_key al' n = h (field_key al n)
+    end.
   Inductive rsel : selection -> selection -> Prop :=
-  | RField p al n args args' dirs dirs' sp sels m sels' :
+  | RField p al al' n args args' dirs dirs' sp sels m sels' :
+      ralias al al' n ->
       lperm pa args args' -> rdirs dirs dirs' -> lperm ps sels m -> Forall2 rsel m sels' ->
-      rsel (SField p al n args dirs sp sels) (SField p al n args' dirs' sp sels')
+      rsel (SField p al n args dirs sp sels) (SField p al' n args' dirs' sp sels')
   | RSpread p n dirs dirs' : rdirs dirs dirs' -> rsel (SSpread p n dirs) (SSpread p n dirs')
   | RInline p tc dirs dirs' sp sels m sels' :
       rdirs dirs dirs' -> lperm ps sels m -> Forall2 rsel m sels' ->
@@ -151,7 +187,7 @@ Section Rel.
   Inductive rop : operation -> operation -> Prop :=
   | ROp k p n vars vars' dirs dirs' sp sels sels' :
       lperm pv vars vars' -> rdirs dirs dirs' -> rsels sels sels' ->
-      rop (mkOperation k p n vars dirs sp sels) (mkOperation k p n vars' dirs' sp sels').
+      rop (mkOperation k p n vars dirs sp sels) (mkOperation k p (ren n) vars' dirs' sp sels').
   Inductive rfrag : fragment_def -> fragment_def -> Prop :=
   | RFrag p n tc dirs dirs' sp sels sels' :
       rdirs dirs dirs' -> rsels sels sels' ->
@@ -261,7 +297,7 @@ Section Rel.
 
   Lemma rsel_sels_rsels x y : rsel x y -> rsels (sel_sels x) (sel_sels y).
   Proof.
-    intro H. destruct H as [p al n args args' dirs dirs' sp sels m sels' Ha Hd Hp Hf|p n dirs dirs' Hd
+    intro H. destruct H as [p al al' n args args' dirs dirs' sp sels m sels' Hal Ha Hd Hp Hf|p n dirs dirs' Hd
                            |p tc dirs dirs' sp sels m sels' Hd Hp Hf]; cbn [sel_sels].
     - exists m. split; assumption.
     - exists []. split; [apply lperm_refl|constructor].
@@ -274,7 +310,7 @@ Section Rel.
     induction x as [p al n args dirs sp sels IH|p n dirs|p tc dirs sp sels IH] using selection_ind';
       intros y e Hxy.
     - pose proof (rsel_sels_rsels _ _ Hxy) as Hss. cbn [sel_sels] in Hss.
-      inversion Hxy as [p0 al0 n0 args0 args' dirs0 dirs' sp0 sels0 m sels' Ha Hd Hp Hf| |]; subst.
+      inversion Hxy as [p0 al0 al' n0 args0 args' dirs0 dirs' sp0 sels0 m sels' Hal Ha Hd Hp Hf| |]; subst.
       cbn [annot_selection]. cbv zeta.
       set (fdef := opt_bind (a_parent e) (fun t => field_by_name t n)).
       set (e1 := at_type s e (opt_map fd_type fdef)).
@@ -312,7 +348,7 @@ Section Rel.
   Qed.
 
   Lemma rop_fields o o' : rop o o' ->
-    o_kind o = o_kind o' /\ o_pos o = o_pos o' /\ o_name o = o_name o' /\ o_span o = o_span o' /\
+    o_kind o = o_kind o' /\ o_pos o = o_pos o' /\ ren (o_name o) = o_name o' /\ o_span o = o_span o' /\
     lperm pv (o_vars o) (o_vars o') /\ rdirs (o_dirs o) (o_dirs o') /\ rsels (o_sels o) (o_sels o').
   Proof. intros []. cbn. repeat split; assumption. Qed.
   Lemma rfrag_fields f f' : rfrag f f' ->
@@ -330,10 +366,10 @@ Section Rel.
     intro H. destruct (rop_fields _ _ H) as (Hk & _ & _ & _ & _ & Hd & _). unfold op_directives.
     rewrite <- Hk. destruct (o_kind o); [constructor|exact Hd..].
   Qed.
-  Lemma rop_node_name o o' : rop o o' -> op_node_name o = op_node_name o'.
+  Lemma rop_node_name o o' : ren None = None -> rop o o' -> ren (op_node_name o) = op_node_name o'.
   Proof.
-    intro H. destruct (rop_fields _ _ H) as (Hk & _ & Hn & _). unfold op_node_name.
-    rewrite <- Hk, <- Hn. reflexivity.
+    intros Hnone H. destruct (rop_fields _ _ H) as (Hk & _ & Hn & _). unfold op_node_name.
+    rewrite <- Hk, <- Hn. destruct (o_kind o); [exact Hnone|reflexivity..].
   Qed.
 
   Lemma annot_definition_rel s x y e : rdef x y ->
@@ -392,17 +428,30 @@ Proof. induction 1 as [|x y l l' _ _ IH]; [reflexivity|]. cbn [List.length]. rew
 Lemma PermR_eq_refl {A} (l : list A) : PermR eq l l.
 Proof. apply PermR_perm, Permutation_refl. Qed.
 
+Lemma nodup_names_map_inj (fo : name -> name) l :
+  (forall a b, In a l -> In b l -> fo a = fo b -> a = b) -> nodup_names (map fo l) = nodup_names l.
+Proof.
+  intro Hinj. apply bool_iff_eq. rewrite !nodup_names_iff. split.
+  - apply NoDup_map_inv.
+  - intro H. induction H as [|x l Hx Hl IH]; cbn [map]; constructor.
+    + intro Hin. apply in_map_iff in Hin. destruct Hin as (y & Hy & Hyl).
+      assert (y = x) by (apply Hinj; [right; exact Hyl|left; reflexivity|exact Hy]). subst y. contradiction.
+    + apply IH. intros a b Ha Hb. apply Hinj; right; assumption.
+Qed.
+
 Section DocRel.
+  Variable ren : option name -> option name.
+  Variable hk : option (name -> name).
   Variables pa pv ps : bool.
   Notation rdir := (rdir pa).
   Notation rdirs := (rdirs pa).
-  Notation rsel := (rsel pa ps).
-  Notation rsels := (rsels pa ps).
-  Notation rop := (rop pa pv ps).
-  Notation rfrag := (rfrag pa ps).
-  Notation rdef := (rdef pa pv ps).
-  Notation rdoc := (rdoc pa pv ps).
-  Notation raev := (raev pa pv ps).
+  Notation rsel := (rsel hk pa ps).
+  Notation rsels := (rsels hk pa ps).
+  Notation rop := (rop ren hk pa pv ps).
+  Notation rfrag := (rfrag hk pa ps).
+  Notation rdef := (rdef ren hk pa pv ps).
+  Notation rdoc := (rdoc ren hk pa pv ps).
+  Notation raev := (raev ren hk pa pv ps).
 
   (* ---------------------------------------------------------------- structure *)
   Lemma rdoc_frags d d' : rdoc d d' -> Forall2 rfrag (fragments_of d) (fragments_of d').
@@ -422,7 +471,15 @@ Section DocRel.
   Proof. intros []; cbn [sel_args]; try apply Permutation_refl. eapply lperm_perm; eassumption. Qed.
   Lemma rsel_dirs x y : rsel x y -> rdirs (sel_dirs x) (sel_dirs y).
   Proof. intros []; cbn [sel_dirs]; assumption. Qed.
-  Lemma rsel_key x y : rsel x y -> field_response_key x = field_response_key y.
+  Lemma rsel_key x y : rsel x y -> is_field_sel x = true ->
+    field_response_key y = kmap hk (field_response_key x).
+  Proof.
+    intros [p al al' n args args' dirs dirs' sp sels m sels' Hal Ha Hd Hp Hf| |] Hx; try discriminate.
+    unfold ralias in Hal. destruct hk as [h|]; cbn [kmap].
+    - exact Hal.
+    - subst al'. reflexivity.
+  Qed.
+  Lemma rsel_is_field x y : rsel x y -> is_field_sel x = is_field_sel y.
   Proof. intros []; reflexivity. Qed.
   Lemma rsel_pos x y : rsel x y -> node_pos x = node_pos y.
   Proof. intros []; reflexivity. Qed.
@@ -430,7 +487,7 @@ Section DocRel.
   Lemma sel_all_rel x : forall y, rsel x y -> PermR rsel (sel_all x) (sel_all y).
   Proof.
     induction x as [p al n args dirs sp sels IH|p n dirs|p tc dirs sp sels IH] using selection_ind';
-      intros y Hxy; pose proof (rsel_sels_rsels _ _ _ _ Hxy) as Hss; cbn [sel_sels] in Hss;
+      intros y Hxy; pose proof (rsel_sels_rsels _ _ _ _ _ Hxy) as Hss; cbn [sel_sels] in Hss;
       inversion Hxy; subst; cbn [sel_all sel_sels] in *; (apply PermR_cons; [exact Hxy|]);
       try apply PermR_nil;
       (apply (PermR_flat_map rsel); [apply rsels_PermR, Hss|]);
@@ -445,8 +502,8 @@ Section DocRel.
   Lemma rdef_sels x y : rdef x y -> rsels (def_sels x) (def_sels y).
   Proof.
     intros [o o' H|f f' H]; cbn [def_sels].
-    - apply (rop_fields _ _ _ _ _ H).
-    - apply (rfrag_fields _ _ _ _ H).
+    - apply (rop_fields _ _ _ _ _ _ _ H).
+    - apply (rfrag_fields _ _ _ _ _ H).
   Qed.
 
   Lemma doc_selections_rel d d' : rdoc d d' -> PermR rsel (doc_selections d) (doc_selections d').
@@ -501,7 +558,7 @@ Section DocRel.
     Lemma frag_names_rel : frag_names d = frag_names d'.
     Proof.
       unfold frag_names. apply (Forall2_map_eq rfrag); [apply rdoc_frags, Hd|].
-      intros f f' H. apply (rfrag_fields _ _ _ _ H).
+      intros f f' H. apply (rfrag_fields _ _ _ _ _ H).
     Qed.
     Lemma frags_length_rel : List.length (fragments_of d) = List.length (fragments_of d').
     Proof. eapply F2_length, rdoc_frags, Hd. Qed.
@@ -510,7 +567,7 @@ Section DocRel.
     Proof.
       unfold find_fragment. pose proof (Forall2_rev' _ _ _ (rdoc_frags _ _ Hd)) as H.
       induction H as [|f f' l l' Hf _ IH]; cbn [find_first]; [constructor|].
-      destruct (rfrag_fields _ _ _ _ Hf) as (_ & Hn & _). rewrite <- Hn.
+      destruct (rfrag_fields _ _ _ _ _ Hf) as (_ & Hn & _). rewrite <- Hn.
       destruct (name_eqb (fr_name f) n); [constructor; exact Hf|exact IH].
     Qed.
 
@@ -518,14 +575,14 @@ Section DocRel.
     Proof.
       apply PermR_eq_perm. unfold fragment_spreads. apply (F2_flat_map rfrag).
       eapply Forall2_impl_in; [|apply rdoc_frags, Hd]. intros f f' _ Hf.
-      destruct (rfrag_fields _ _ _ _ Hf) as (_ & Hn & _ & _ & _ & Hs). rewrite <- Hn.
+      destruct (rfrag_fields _ _ _ _ _ Hf) as (_ & Hn & _ & _ & _ & Hs). rewrite <- Hn.
       destruct (name_eqb (fr_name f) n); [|apply PermR_nil]. apply PermR_perm, spreads_in_rel, Hs.
     Qed.
     Lemma fragment_vars_rel n : Permutation (fragment_vars d n) (fragment_vars d' n).
     Proof.
       apply PermR_eq_perm. unfold fragment_vars. apply (F2_flat_map rfrag).
       eapply Forall2_impl_in; [|apply rdoc_frags, Hd]. intros f f' _ Hf.
-      destruct (rfrag_fields _ _ _ _ Hf) as (_ & Hn & _ & _ & Hdi & Hs). rewrite <- Hn.
+      destruct (rfrag_fields _ _ _ _ _ Hf) as (_ & Hn & _ & _ & Hdi & Hs). rewrite <- Hn.
       destruct (name_eqb (fr_name f) n); [|apply PermR_nil].
       apply PermR_perm, Permutation_app; [apply dirs_vars_rel, Hdi|apply sels_vars_rel, Hs].
     Qed.
@@ -538,19 +595,32 @@ Section DocRel.
       apply eqset_flat_map; [exact H|]. intros n _. apply perm_eqset, fragment_spreads_rel.
     Qed.
 
-    Lemma named_operation_names_rel : named_operation_names d = named_operation_names d'.
+    (* operation names are rewritten by fo, injective on the operation names of d *)
+    Variable fo : name -> name.
+    Hypothesis Hren : forall n, ren n = opt_map fo n.
+    Hypothesis Hinj : forall a b, In a (named_operation_names d) -> In b (named_operation_names d) ->
+                                  fo a = fo b -> a = b.
+
+    Lemma rop_node_name_fo o o' : rop o o' -> op_node_name o' = opt_map fo (op_node_name o).
+    Proof. intro H. rewrite <- Hren. symmetry. apply (rop_node_name ren hk pa pv ps); [apply (Hren None)|exact H]. Qed.
+
+    Lemma named_operation_names_rel : named_operation_names d' = map fo (named_operation_names d).
     Proof.
-      unfold named_operation_names. apply (Forall2_flat_map_eq rop); [apply rdoc_ops, Hd|].
-      intros o o' H. rewrite (rop_node_name _ _ _ _ _ H). reflexivity.
+      unfold named_operation_names. pose proof (rdoc_ops _ _ Hd) as H.
+      induction H as [|o o' l l' Ho _ IH]; [reflexivity|]. cbn [flat_map]. rewrite map_app, IH. f_equal.
+      rewrite (rop_node_name_fo _ _ Ho). destruct (op_node_name o); reflexivity.
     Qed.
 
     Lemma r_unique_operation_names : v_unique_operation_names d = v_unique_operation_names d'.
-    Proof. unfold v_unique_operation_names. rewrite named_operation_names_rel. reflexivity. Qed.
+    Proof.
+      unfold v_unique_operation_names. rewrite named_operation_names_rel. f_equal. symmetry.
+      apply nodup_names_map_inj, Hinj.
+    Qed.
     Lemma r_lone_anonymous : v_lone_anonymous d = v_lone_anonymous d'.
     Proof.
       unfold v_lone_anonymous. rewrite (F2_length _ _ _ (rdoc_ops _ _ Hd)). f_equal.
       apply (F2_existsb rop). eapply Forall2_impl_in; [|apply rdoc_ops, Hd].
-      intros o o' _ H. rewrite (rop_node_name _ _ _ _ _ H). reflexivity.
+      intros o o' _ H. rewrite (rop_node_name_fo _ _ H). destruct (op_node_name o); reflexivity.
     Qed.
     Lemma r_unique_fragment_names : v_unique_fragment_names d = v_unique_fragment_names d'.
     Proof. unfold v_unique_fragment_names. rewrite frag_names_rel. reflexivity. Qed.
@@ -564,7 +634,7 @@ Section DocRel.
                   (flat_map (fun o => spreads_in (o_sels o)) (operations_of d')).
     Proof.
       apply PermR_eq_perm. apply (F2_flat_map rop). eapply Forall2_impl_in; [|apply rdoc_ops, Hd].
-      intros o o' _ H. apply PermR_perm, spreads_in_rel, (rop_fields _ _ _ _ _ H).
+      intros o o' _ H. apply PermR_perm, spreads_in_rel, (rop_fields _ _ _ _ _ _ _ H).
     Qed.
 
     Lemma r_no_unused_fragments : v_no_unused_fragments d = v_no_unused_fragments d'.
@@ -585,7 +655,7 @@ Section DocRel.
     Proof.
       unfold type_conditions. apply Permutation_app.
       - rewrite (Forall2_map_eq rfrag fr_tc fr_tc _ _ (rdoc_frags _ _ Hd)); [apply Permutation_refl|].
-        intros f f' H. apply (rfrag_fields _ _ _ _ H).
+        intros f f' H. apply (rfrag_fields _ _ _ _ _ H).
       - apply PermR_eq_perm. apply (PermR_flat_map rsel); [apply doc_selections_rel, Hd|].
         intros x y _ []; apply PermR_eq_refl.
     Qed.
@@ -593,7 +663,7 @@ Section DocRel.
     Proof.
       apply PermR_eq_perm. unfold variable_types. apply (F2_flat_map rop).
       eapply Forall2_impl_in; [|apply rdoc_ops, Hd]. intros o o' _ H.
-      apply PermR_perm, Permutation_map, (lperm_perm pv), (rop_vardefs pa pv ps), H.
+      apply PermR_perm, Permutation_map, (lperm_perm pv), (rop_vardefs ren hk pa pv ps), H.
     Qed.
     Lemma r_known_type_names : v_known_type_names s d = v_known_type_names s d'.
     Proof.
@@ -607,19 +677,19 @@ Section DocRel.
 
     (* ---- variables ---- *)
     Lemma op_var_names_rel o o' : rop o o' -> Permutation (op_var_names o) (op_var_names o').
-    Proof. intro H. unfold op_var_names. apply Permutation_map, (lperm_perm pv), (rop_vardefs pa pv ps), H. Qed.
+    Proof. intro H. unfold op_var_names. apply Permutation_map, (lperm_perm pv), (rop_vardefs ren hk pa pv ps), H. Qed.
 
     Lemma op_reachable_rel o o' : rop o o' ->
       eqset (op_reachable_fragments d o) (op_reachable_fragments d' o').
     Proof.
       intro H. unfold op_reachable_fragments. rewrite frags_length_rel.
-      apply spread_closure_rel, dedup_eqset_congr, perm_eqset, spreads_in_rel, (rop_fields _ _ _ _ _ H).
+      apply spread_closure_rel, dedup_eqset_congr, perm_eqset, spreads_in_rel, (rop_fields _ _ _ _ _ _ _ H).
     Qed.
     Lemma vars_used_rel o o' : rop o o' -> eqset (vars_used_in_op d o) (vars_used_in_op d' o').
     Proof.
       intro H. unfold vars_used_in_op. apply eqset_app; [|apply eqset_app].
-      - apply perm_eqset, dirs_vars_rel, (rop_directives pa pv ps), H.
-      - apply perm_eqset, sels_vars_rel, (rop_fields _ _ _ _ _ H).
+      - apply perm_eqset, dirs_vars_rel, (rop_directives ren hk pa pv ps), H.
+      - apply perm_eqset, sels_vars_rel, (rop_fields _ _ _ _ _ _ _ H).
       - apply eqset_flat_map; [apply op_reachable_rel, H|]. intros n _. apply perm_eqset, fragment_vars_rel.
     Qed.
 
@@ -699,7 +769,7 @@ Section DocRel.
       - apply (PermR_existsb rfe); [apply field_events_rel|].
         intros [f e] [f' e'] _ [Hf He]. cbn [fst snd] in *. subst e'. rewrite (rsel_name _ _ Hf). reflexivity.
       - apply (F2_existsb rop). eapply Forall2_impl_in; [|apply rdoc_ops, Hd]. intros o o' _ H.
-        destruct (rop_fields _ _ _ _ _ H) as (Hk & _ & _ & _ & _ & _ & Hs). rewrite <- Hk.
+        destruct (rop_fields _ _ _ _ _ _ _ H) as (Hk & _ & _ & _ & _ & _ & Hs). rewrite <- Hk.
         destruct (o_kind o); try reflexivity.
         apply (PermR_existsb rsel); [apply rsels_PermR, Hs|]. intros x y _ []; reflexivity.
     Qed.
@@ -712,7 +782,7 @@ Section DocRel.
       destruct Hn as [| | | | | |x x' Hx| |n Hn]; try reflexivity.
       - destruct Hx as [|p n dirs dirs' Hdi|]; try reflexivity.
         destruct (find_fragment_rel n) as [f f' Hf|]; [|reflexivity].
-        destruct (rfrag_fields _ _ _ _ Hf) as (_ & _ & Htc & _). rewrite Htc. reflexivity.
+        destruct (rfrag_fields _ _ _ _ _ Hf) as (_ & _ & Htc & _). rewrite Htc. reflexivity.
       - destruct n; try discriminate; reflexivity.
     Qed.
 
@@ -767,7 +837,7 @@ Section DocRel.
       PermR rsite (sel_directive_sites x) (sel_directive_sites y).
     Proof.
       induction x as [p al n args dirs sp sels IH|p n dirs|p tc dirs sp sels IH] using selection_ind';
-        intros y Hxy; pose proof (rsel_sels_rsels _ _ _ _ Hxy) as Hss; pose proof (rsel_dirs _ _ Hxy) as Hdi;
+        intros y Hxy; pose proof (rsel_sels_rsels _ _ _ _ _ Hxy) as Hss; pose proof (rsel_dirs _ _ Hxy) as Hdi;
         cbn [sel_sels sel_dirs] in Hss, Hdi;
         inversion Hxy; subst; cbn [sel_directive_sites sel_sels sel_dirs] in *;
         (apply PermR_cons; [split; [reflexivity|exact Hdi]|]); try apply PermR_nil;
@@ -784,10 +854,10 @@ Section DocRel.
     Proof.
       unfold directive_sites. apply (F2_flat_map rdef). eapply Forall2_impl_in; [|exact Hd].
       intros x y _ [o o' H|f f' H].
-      - destruct (rop_fields _ _ _ _ _ H) as (Hk & _ & _ & _ & _ & _ & Hs). rewrite <- Hk.
-        apply PermR_cons; [split; [reflexivity|apply (rop_directives pa pv ps), H]|].
+      - destruct (rop_fields _ _ _ _ _ _ _ H) as (Hk & _ & _ & _ & _ & _ & Hs). rewrite <- Hk.
+        apply PermR_cons; [split; [reflexivity|apply (rop_directives ren hk pa pv ps), H]|].
         apply sels_directive_sites_rel, Hs.
-      - destruct (rfrag_fields _ _ _ _ H) as (_ & _ & _ & _ & Hdi & Hs).
+      - destruct (rfrag_fields _ _ _ _ _ H) as (_ & _ & _ & _ & Hdi & Hs).
         apply PermR_cons; [split; [reflexivity|exact Hdi]|]. apply sels_directive_sites_rel, Hs.
     Qed.
 
@@ -836,7 +906,7 @@ Section DocRel.
       - apply eqset_flat_map; [apply op_reachable_rel, H|]. intros n _.
         apply perm_eqset, PermR_eq_perm. apply (F2_flat_map rfrag).
         eapply Forall2_impl_in; [|apply rdoc_frags, Hd]. intros f f' _ Hf.
-        destruct (rfrag_fields _ _ _ _ Hf) as (_ & Hn & _). rewrite <- Hn.
+        destruct (rfrag_fields _ _ _ _ _ Hf) as (_ & Hn & _). rewrite <- Hn.
         destruct (name_eqb (fr_name f) n); [|apply PermR_nil].
         apply PermR_perm, definition_usages_rel. constructor. exact Hf.
     Qed.
@@ -850,7 +920,7 @@ Section DocRel.
       intros o o' Ho H. apply existsb_eqset; [apply op_usages_rel, H|]. intros [[x lt] ld] _.
       assert (E : find_first (fun vd => name_eqb (v_name vd) x) (op_variable_definitions o) =
                   find_first (fun vd => name_eqb (v_name vd) x) (op_variable_definitions o')).
-      { pose proof (rop_vardefs pa pv ps _ _ H) as Hv. destruct pv; cbn [lperm] in Hv; [|rewrite Hv; reflexivity].
+      { pose proof (rop_vardefs ren hk pa pv ps _ _ H) as Hv. destruct pv; cbn [lperm] in Hv; [|rewrite Hv; reflexivity].
         specialize (Hu eq_refl). unfold v_unique_variable_names in Hu.
         assert (Hn : nodup_names (op_var_names o) = true).
         { destruct (nodup_names (op_var_names o)) eqn:E; [reflexivity|].
@@ -1465,27 +1535,40 @@ Proof.
 Qed.
 
 Section CollectRel.
+  Variable ren : option name -> option name.
+  Variable hk : option (name -> name).
   Variables pa pv ps : bool.
   Notation rdir := (rdir pa).
   Notation rdirs := (rdirs pa).
-  Notation rsel := (rsel pa ps).
-  Notation rsels := (rsels pa ps).
-  Notation rop := (rop pa pv ps).
-  Notation rfrag := (rfrag pa ps).
-  Notation rdef := (rdef pa pv ps).
-  Notation rdoc := (rdoc pa pv ps).
+  Notation rsel := (rsel hk pa ps).
+  Notation rsels := (rsels hk pa ps).
+  Notation rop := (rop ren hk pa pv ps).
+  Notation rfrag := (rfrag hk pa ps).
+  Notation rdef := (rdef ren hk pa pv ps).
+  Notation rdoc := (rdoc ren hk pa pv ps).
 
-  Lemma sfs_bad_rel l l' : PermR rsel l l' -> sfs_bad l = sfs_bad l'.
+  Hypothesis Hinjk : key_injective hk.
+  (* related fields *)
+  Definition rselF (x y : selection) : Prop := rsel x y /\ is_field_sel x = true.
+
+  Lemma sfs_bad_rel l l' : PermR rselF l l' -> sfs_bad l = sfs_bad l'.
   Proof.
     intro H. unfold sfs_bad. rewrite !group_introspection. f_equal.
     - f_equal. unfold group_by_key. rewrite !map_length.
-      assert (Hk : Permutation (map field_response_key l) (map field_response_key l')).
-      { apply PermR_eq_perm. apply (PermR_map rsel); [exact H|]. intros x y _. apply rsel_key. }
-      apply Permutation_length, NoDup_Permutation; try apply distinct_keys_spec.
-      intro k. rewrite !(proj2 (distinct_keys_spec _ [])). split; intros [H1 H2]; (split; [|exact H2]).
-      + eapply Permutation_in; [exact Hk|exact H1].
-      + eapply Permutation_in; [apply Permutation_sym, Hk|exact H1].
-    - apply (PermR_existsb rsel); [exact H|]. intros x y _ []; reflexivity.
+      assert (Hk : Permutation (map (kmap hk) (map field_response_key l)) (map field_response_key l')).
+      { apply PermR_eq_perm. rewrite map_map. apply (PermR_map rselF); [exact H|].
+        intros x y _ [Hxy Hx]. symmetry. apply (rsel_key hk pa ps); assumption. }
+      rewrite <- (map_length (kmap hk) (distinct_keys (map field_response_key l) [])).
+      apply Permutation_length, NoDup_Permutation.
+      + apply FinFun.Injective_map_NoDup; [exact Hinjk|apply distinct_keys_spec].
+      + apply distinct_keys_spec.
+      + intro k. rewrite (proj2 (distinct_keys_spec _ [])), in_map_iff. split.
+        * intros (k0 & <- & Hk0). apply (distinct_keys_spec _ []) in Hk0. destruct Hk0 as [Hk0 _].
+          split; [|reflexivity]. eapply Permutation_in; [exact Hk|]. apply in_map, Hk0.
+        * intros [H1 _]. eapply Permutation_in in H1; [|apply Permutation_sym, Hk].
+          apply in_map_iff in H1. destruct H1 as (k0 & <- & Hk0). exists k0. split; [reflexivity|].
+          apply (distinct_keys_spec _ []). split; [exact Hk0|reflexivity].
+    - apply (PermR_existsb rselF); [exact H|]. intros x y _ [[] _]; reflexivity.
   Qed.
 
   Variables (s : sdocument) (d d' : document).
@@ -1495,26 +1578,26 @@ Section CollectRel.
   Proof. apply filter_length_all. Qed.
 
   (* ---- single-field subscriptions ---- *)
-  Lemma flatS_rel obj x : forall y, rsel x y -> PermR (ratom rsel) (flatS s obj x) (flatS s obj y).
+  Lemma flatS_rel obj x : forall y, rsel x y -> PermR (ratom rselF) (flatS s obj x) (flatS s obj y).
   Proof.
     induction x as [p al n args dirs sp sels IH|p n dirs|p tc dirs sp sels IH] using selection_ind';
-      intros y Hxy; pose proof (rsel_sels_rsels _ _ _ _ Hxy) as Hss; cbn [sel_sels] in Hss;
+      intros y Hxy; pose proof (rsel_sels_rsels _ _ _ _ _ Hxy) as Hss; cbn [sel_sels] in Hss;
       inversion Hxy; subst; cbn [flatS].
-    - apply PermR_one. constructor. exact Hxy.
+    - apply PermR_one. constructor. split; [exact Hxy|reflexivity].
     - apply PermR_one. constructor.
     - destruct (tc_applies s obj tc); [|apply PermR_nil].
       apply (PermR_flat_map rsel); [apply rsels_PermR, Hss|].
       intros a b Ha Hab. rewrite Forall_forall in IH. apply IH; assumption.
   Qed.
   Lemma flatS_list_rel obj l l' : rsels l l' ->
-    PermR (ratom rsel) (flat_map (flatS s obj) l) (flat_map (flatS s obj) l').
+    PermR (ratom rselF) (flat_map (flatS s obj) l) (flat_map (flatS s obj) l').
   Proof.
     intro H. apply (PermR_flat_map rsel); [apply rsels_PermR, H|]. intros a b _. apply flatS_rel.
   Qed.
-  Lemma bodyS_rel obj n : PermR (ratom rsel) (nbody (bodyS s obj d) n) (nbody (bodyS s obj d') n).
+  Lemma bodyS_rel obj n : PermR (ratom rselF) (nbody (bodyS s obj d) n) (nbody (bodyS s obj d') n).
   Proof.
-    unfold nbody, bodyS. destruct (find_fragment_rel pa pv ps d d' Hd n) as [f f' Hf|]; [|apply PermR_nil].
-    destruct (rfrag_fields _ _ _ _ Hf) as (_ & _ & Htc & _ & _ & Hs). rewrite <- Htc.
+    unfold nbody, bodyS. destruct (find_fragment_rel ren hk pa pv ps d d' Hd n) as [f f' Hf|]; [|apply PermR_nil].
+    destruct (rfrag_fields _ _ _ _ _ Hf) as (_ & _ & Htc & _ & _ & Hs). rewrite <- Htc.
     destruct (fragment_type_applies s obj (fr_tc f)); [|apply PermR_nil]. apply flatS_list_rel, Hs.
   Qed.
 
@@ -1523,7 +1606,7 @@ Section CollectRel.
     sfs_bad (fst (spec_collect_list (S (S (List.length (fragments_of d')))) s d' obj l' [])).
   Proof.
     intro H. apply sfs_bad_rel. rewrite !spec_collect_list_flat.
-    apply (dfs_rel rsel (bodyS s obj d) (bodyS s obj d') (bodyS_rel obj) (frag_names d) (frag_names d')
+    apply (dfs_rel rselF (bodyS s obj d) (bodyS s obj d') (bodyS_rel obj) (frag_names d) (frag_names d')
                    (bodyS_U s obj d) (bodyS_U s obj d')).
     - pose proof (unvisited_nil (frag_names d)). unfold frag_names in *. rewrite map_length in *. lia.
     - pose proof (unvisited_nil (frag_names d')). unfold frag_names in *. rewrite map_length in *. lia.
@@ -1534,20 +1617,21 @@ Section CollectRel.
   Lemma r_single_field_subscriptions : v_single_field_subscriptions s d = v_single_field_subscriptions s d'.
   Proof.
     unfold v_single_field_subscriptions. apply (F2_existsb rop).
-    eapply Forall2_impl_in; [|apply (rdoc_ops pa pv ps), Hd]. intros o o' _ H.
-    destruct (rop_fields _ _ _ _ _ H) as (Hk & _ & _ & _ & _ & _ & Hs). rewrite <- Hk.
+    eapply Forall2_impl_in; [|apply (rdoc_ops ren hk pa pv ps), Hd]. intros o o' _ H.
+    destruct (rop_fields _ _ _ _ _ _ _ H) as (Hk & _ & _ & _ & _ & _ & Hs). rewrite <- Hk.
     destruct (o_kind o); try reflexivity. destruct (root s OpSubscription) as [t|]; [|reflexivity].
     unfold spec_collect. apply (spec_collect_rel t _ _ Hs).
   Qed.
   (* ---- field merging ---- *)
-  Definition rcf (c c' : cfield) : Prop := cf_parent c = cf_parent c' /\ rsel (cf_field c) (cf_field c').
+  Definition rcf (c c' : cfield) : Prop :=
+    cf_parent c = cf_parent c' /\ rsel (cf_field c) (cf_field c') /\ is_field_sel (cf_field c) = true.
 
   Lemma flatC_rel x : forall y p, rsel x y -> PermR (ratom rcf) (flatC s p x) (flatC s p y).
   Proof.
     induction x as [q al n args dirs sp sels IH|q n dirs|q tc dirs sp sels IH] using selection_ind';
-      intros y p Hxy; pose proof (rsel_sels_rsels _ _ _ _ Hxy) as Hss; cbn [sel_sels] in Hss;
+      intros y p Hxy; pose proof (rsel_sels_rsels _ _ _ _ _ Hxy) as Hss; cbn [sel_sels] in Hss;
       inversion Hxy; subst; cbn [flatC].
-    - apply PermR_one. constructor. split; [reflexivity|exact Hxy].
+    - apply PermR_one. constructor. split; [reflexivity|split; [exact Hxy|reflexivity]].
     - apply PermR_one. constructor.
     - apply (PermR_flat_map rsel); [apply rsels_PermR, Hss|].
       intros a b Ha Hab. rewrite Forall_forall in IH. apply IH; assumption.
@@ -1559,8 +1643,8 @@ Section CollectRel.
   Qed.
   Lemma bodyC_rel n : PermR (ratom rcf) (nbody (bodyC s d) n) (nbody (bodyC s d') n).
   Proof.
-    unfold nbody, bodyC. destruct (find_fragment_rel pa pv ps d d' Hd n) as [f f' Hf|]; [|apply PermR_nil].
-    destruct (rfrag_fields _ _ _ _ Hf) as (_ & _ & Htc & _ & _ & Hs). rewrite <- Htc.
+    unfold nbody, bodyC. destruct (find_fragment_rel ren hk pa pv ps d d' Hd n) as [f f' Hf|]; [|apply PermR_nil].
+    destruct (rfrag_fields _ _ _ _ _ Hf) as (_ & _ & Htc & _ & _ & Hs). rewrite <- Htc.
     apply flatC_list_rel, Hs.
   Qed.
 
@@ -1576,9 +1660,12 @@ Section CollectRel.
   Qed.
 
   Lemma rcf_def c c' : rcf c c' -> cf_def c = cf_def c'.
-  Proof. intros [Hp Hf]. unfold cf_def. rewrite Hp, (rsel_name _ _ _ _ Hf). reflexivity. Qed.
-  Lemma rcf_key c c' : rcf c c' -> cf_key c = cf_key c'.
-  Proof. intros [_ Hf]. unfold cf_key. apply (rsel_key _ _ _ _ Hf). Qed.
+  Proof. intros (Hp & Hf & _). unfold cf_def. rewrite Hp, (rsel_name _ _ _ _ _ Hf). reflexivity. Qed.
+  Lemma rcf_key c c' : rcf c c' -> cf_key c' = kmap hk (cf_key c).
+  Proof. intros (_ & Hf & Hi). unfold cf_key. apply (rsel_key _ _ _ _ _ Hf Hi). Qed.
+  Lemma rcf_key_eqb x x' y y' : rcf x x' -> rcf y y' ->
+    name_eqb (cf_key x') (cf_key y') = name_eqb (cf_key x) (cf_key y).
+  Proof. intros Hx Hy. rewrite (rcf_key _ _ Hx), (rcf_key _ _ Hy). apply name_eqb_kmap, Hinjk. Qed.
 
   Lemma sub_set_rel c c' : rcf c c' -> PermR rcf (sub_set s d c) (sub_set s d' c').
   Proof.
@@ -1590,7 +1677,7 @@ Section CollectRel.
   Proof.
     intros HA HB Hh. unfold cross_all. apply (PermR_forallb rcf); [exact HA|]. intros x x' _ Hx.
     apply (PermR_forallb rcf); [exact HB|]. intros y y' _ Hy.
-    rewrite (rcf_key _ _ Hx), (rcf_key _ _ Hy), (Hh x x' y y' Hx Hy). reflexivity.
+    rewrite (rcf_key_eqb _ _ _ _ Hx Hy), (Hh x x' y y' Hx Hy). reflexivity.
   Qed.
 
   Lemma fcm_rel : forall f m a a' b b', rcf a a' -> rcf b b' ->
@@ -1600,8 +1687,8 @@ Section CollectRel.
     assert (Epe : parents_exclusive a b = parents_exclusive a' b').
     { unfold parents_exclusive. rewrite (proj1 Ha), (proj1 Hb). reflexivity. }
     rewrite Epe, (rcf_def _ _ Ha), (rcf_def _ _ Hb).
-    rewrite (rsel_name _ _ _ _ (proj2 Ha)), (rsel_name _ _ _ _ (proj2 Hb)).
-    rewrite (same_arguments_perm _ _ _ _ (rsel_args _ _ _ _ (proj2 Ha)) (rsel_args _ _ _ _ (proj2 Hb))).
+    rewrite (rsel_name _ _ _ _ _ (proj1 (proj2 Ha))), (rsel_name _ _ _ _ _ (proj1 (proj2 Hb))).
+    rewrite (same_arguments_perm _ _ _ _ (rsel_args _ _ _ _ _ (proj1 (proj2 Ha))) (rsel_args _ _ _ _ _ (proj1 (proj2 Hb)))).
     f_equal. apply cross_all_rel; [apply sub_set_rel, Ha|apply sub_set_rel, Hb|].
     intros x x' y y' Hx Hy. apply IH; assumption.
   Qed.
@@ -1609,7 +1696,7 @@ Section CollectRel.
   Lemma count_fields_rel x : forall y, rsel x y -> count_fields x = count_fields y.
   Proof.
     induction x as [q al n args dirs sp sels IH|q n dirs|q tc dirs sp sels IH] using selection_ind';
-      intros y Hxy; inversion Hxy as [? ? ? ? ? ? ? ? ? m ? _ _ Hp Hf| |? ? ? ? ? ? m ? _ Hp Hf]; subst;
+      intros y Hxy; inversion Hxy as [? ? ? ? ? ? ? ? ? ? m ? _ _ _ Hp Hf| |? ? ? ? ? ? m ? _ Hp Hf]; subst;
       cbn [count_fields]; try reflexivity; [f_equal|];
       (rewrite (fold_add_perm count_fields _ _ (lperm_perm ps _ _ Hp));
        apply (fold_add_F2 rsel); [exact Hf|]; intros a b Ha Hab; rewrite Forall_forall in IH; apply IH; [|exact Hab];
@@ -1624,7 +1711,7 @@ Section CollectRel.
   Lemma doc_fields_rel : doc_fields d = doc_fields d'.
   Proof.
     unfold doc_fields. apply (fold_add_F2 rdef); [exact Hd|]. intros x y _ Hxy.
-    pose proof (rdef_sels _ _ _ _ _ Hxy) as H. destruct Hxy; cbn [def_sels] in H; apply sels_fields_rel, H.
+    pose proof (rdef_sels _ _ _ _ _ _ _ Hxy) as H. destruct Hxy; cbn [def_sels] in H; apply sels_fields_rel, H.
   Qed.
 
   Lemma fisc_rel set set' : PermR rcf set set' ->
@@ -1636,193 +1723,308 @@ Section CollectRel.
     rewrite (pairs_within_forallb (fun a b => negb (name_eqb (cf_key a) (cf_key b)) || fields_can_merge (S (S (doc_fields d))) s d' false a b)).
     rewrite (pw_all_perm _ set m); [| |exact Hp].
     - apply (pw_all_F2 rcf); [exact Hf|]. intros x x' y y' Hx Hy.
-      rewrite (rcf_key _ _ Hx), (rcf_key _ _ Hy), (fcm_rel _ _ _ _ _ _ Hx Hy). reflexivity.
+      rewrite (rcf_key_eqb _ _ _ _ Hx Hy), (fcm_rel _ _ _ _ _ _ Hx Hy). reflexivity.
     - intros x y. rewrite name_eqb_sym, fcm_sym. reflexivity.
   Qed.
 
   Lemma r_overlapping_fields : v_overlapping_fields s d = v_overlapping_fields s d'.
   Proof.
-    unfold v_overlapping_fields. apply (PermR_existsb (rss pa ps)); [apply (selection_sets_rel pa pv ps), Hd|].
+    unfold v_overlapping_fields. apply (PermR_existsb (rss hk pa ps)); [apply (selection_sets_rel ren hk pa pv ps), Hd|].
     intros [p l] [p' l'] _ [Hp Hl]. cbn [fst snd] in *. subst p'. f_equal.
     apply fisc_rel, collected_rel, Hl.
   Qed.
 End CollectRel.
 
 (* ------------------------------------------------------------------ all rules *)
-Theorem violated_rel pa pv ps r s d d' : rdoc pa pv ps d d' ->
+Definition renames (ren : option name -> option name) (fo : name -> name) (d : document) : Prop :=
+  (forall n, ren n = opt_map fo n) /\
+  (forall a b, In a (named_operation_names d) -> In b (named_operation_names d) -> fo a = fo b -> a = b).
+
+Lemma renames_id d : renames (fun n => n) (fun x => x) d.
+Proof. split; [intros [n|]; reflexivity|intros a b _ _ H; exact H]. Qed.
+
+Theorem violated_rel ren hk pa pv ps r s d d' fo : rdoc ren hk pa pv ps d d' -> renames ren fo d ->
+  key_injective hk ->
   (pv = true -> r = R_VariablesInAllowedPosition -> v_unique_variable_names d = false) ->
   violated r s d = violated r s d'.
 Proof.
-  intros Hd Hu. destruct r; cbn [violated].
-  - apply (r_unique_operation_names pa pv ps), Hd.
-  - apply (r_lone_anonymous pa pv ps), Hd.
-  - apply (r_single_field_subscriptions pa pv ps), Hd.
-  - apply (r_known_type_names pa pv ps), Hd.
-  - apply (r_fragments_on_composite pa pv ps), Hd.
-  - apply (r_variables_are_input_types pa pv ps), Hd.
-  - apply (r_leaf_field_selections pa pv ps), Hd.
-  - apply (r_fields_on_correct_type pa pv ps), Hd.
-  - apply (r_unique_fragment_names pa pv ps), Hd.
-  - apply (r_known_fragment_names pa pv ps), Hd.
-  - apply (r_no_unused_fragments pa pv ps), Hd.
-  - rewrite (r_no_fragment_cycles pa pv ps d d' Hd), (r_overlapping_fields pa pv ps s d d' Hd). reflexivity.
-  - apply (r_no_fragment_cycles pa pv ps), Hd.
-  - apply (r_possible_fragment_spreads pa pv ps), Hd.
-  - apply (r_no_unused_variables pa pv ps), Hd.
-  - apply (r_no_undefined_variables pa pv ps), Hd.
-  - apply (r_known_argument_names pa pv ps), Hd.
-  - apply (r_unique_argument_names pa pv ps), Hd.
-  - apply (r_unique_variable_names pa pv ps), Hd.
-  - apply (r_provided_required_arguments pa pv ps), Hd.
-  - apply (r_known_directives pa pv ps), Hd.
-  - apply (r_variables_in_allowed_position pa pv ps); [exact Hd|]. intro Hpv. apply Hu; [exact Hpv|reflexivity].
-  - apply (r_values_of_correct_type pa pv ps), Hd.
-  - apply (r_unique_directives_per_location pa pv ps), Hd.
+  intros Hd [Hren Hinj] Hk Hu. destruct r; cbn [violated].
+  - apply (r_unique_operation_names ren hk pa pv ps d d' Hd fo Hren Hinj).
+  - apply (r_lone_anonymous ren hk pa pv ps d d' Hd fo Hren).
+  - apply (r_single_field_subscriptions ren hk pa pv ps Hk s d d' Hd).
+  - apply (r_known_type_names ren hk pa pv ps), Hd.
+  - apply (r_fragments_on_composite ren hk pa pv ps), Hd.
+  - apply (r_variables_are_input_types ren hk pa pv ps), Hd.
+  - apply (r_leaf_field_selections ren hk pa pv ps), Hd.
+  - apply (r_fields_on_correct_type ren hk pa pv ps), Hd.
+  - apply (r_unique_fragment_names ren hk pa pv ps), Hd.
+  - apply (r_known_fragment_names ren hk pa pv ps), Hd.
+  - apply (r_no_unused_fragments ren hk pa pv ps), Hd.
+  - rewrite (r_no_fragment_cycles ren hk pa pv ps d d' Hd), (r_overlapping_fields ren hk pa pv ps Hk s d d' Hd). reflexivity.
+  - apply (r_no_fragment_cycles ren hk pa pv ps), Hd.
+  - apply (r_possible_fragment_spreads ren hk pa pv ps), Hd.
+  - apply (r_no_unused_variables ren hk pa pv ps), Hd.
+  - apply (r_no_undefined_variables ren hk pa pv ps), Hd.
+  - apply (r_known_argument_names ren hk pa pv ps), Hd.
+  - apply (r_unique_argument_names ren hk pa pv ps), Hd.
+  - apply (r_unique_variable_names ren hk pa pv ps), Hd.
+  - apply (r_provided_required_arguments ren hk pa pv ps), Hd.
+  - apply (r_known_directives ren hk pa pv ps), Hd.
+  - apply (r_variables_in_allowed_position ren hk pa pv ps); [exact Hd|]. intro Hpv. apply Hu; [exact Hpv|reflexivity].
+  - apply (r_values_of_correct_type ren hk pa pv ps), Hd.
+  - apply (r_unique_directives_per_location ren hk pa pv ps), Hd.
 Qed.
 
-(* the three rewrites of C14 (b), (c): d' is d with ... permuted, everywhere in the document *)
-(* (c) the argument lists of fields and directives *)
-Definition perm_args_doc : document -> document -> Prop := rdoc true false false.
-(* (c) the variable definitions of operations *)
-Definition perm_vars_doc : document -> document -> Prop := rdoc false true false.
-(* (b) the selections of selection sets *)
-Definition perm_sels_doc : document -> document -> Prop := rdoc false false true.
+(* the rewrites of C14 (b), (c), (d): d' is d with ... , everywhere in the document *)
+(* (c) the argument lists of fields and directives permuted *)
+Definition perm_args_doc : document -> document -> Prop := rdoc (fun n => n) None true false false.
+(* (c) the variable definitions of operations permuted *)
+Definition perm_vars_doc : document -> document -> Prop := rdoc (fun n => n) None false true false.
+(* (b) the selections of selection sets permuted *)
+Definition perm_sels_doc : document -> document -> Prop := rdoc (fun n => n) None false false true.
 (* all three at once *)
-Definition perm_lists_doc : document -> document -> Prop := rdoc true true true.
+Definition perm_lists_doc : document -> document -> Prop := rdoc (fun n => n) None true true true.
+(* (d) operations renamed by fo *)
+Definition rename_ops_doc (fo : name -> name) : document -> document -> Prop := rdoc (opt_map fo) None false false false.
+Definition injective_on (fo : name -> name) (l : list name) : Prop :=
+  forall a b, In a l -> In b l -> fo a = fo b -> a = b.
 
 Theorem violated_perm_arguments : forall r s d d', perm_args_doc d d' -> violated r s d = violated r s d'.
-Proof. intros r s d d' H. apply (violated_rel true false false); [exact H|discriminate]. Qed.
+Proof.
+  intros r s d d' H. apply (violated_rel (fun n => n) None true false false r s d d' (fun x => x));
+    [exact H|apply renames_id|apply key_injective_none|discriminate].
+Qed.
 
 Theorem violated_perm_variable_definitions : forall r s d d', perm_vars_doc d d' ->
   (r = R_VariablesInAllowedPosition -> violated R_UniqueVariableNames s d = false) ->
   violated r s d = violated r s d'.
-Proof. intros r s d d' H Hu. apply (violated_rel false true false); [exact H|]. intros _. exact Hu. Qed.
+Proof.
+  intros r s d d' H Hu. apply (violated_rel (fun n => n) None false true false r s d d' (fun x => x));
+    [exact H|apply renames_id|apply key_injective_none|]. intros _. exact Hu.
+Qed.
 
 Theorem violated_perm_selections : forall r s d d', perm_sels_doc d d' -> violated r s d = violated r s d'.
-Proof. intros r s d d' H. apply (violated_rel false false true); [exact H|discriminate]. Qed.
+Proof.
+  intros r s d d' H. apply (violated_rel (fun n => n) None false false true r s d d' (fun x => x));
+    [exact H|apply renames_id|apply key_injective_none|discriminate].
+Qed.
 
 Theorem violated_perm_lists : forall r s d d', perm_lists_doc d d' ->
   (r = R_VariablesInAllowedPosition -> violated R_UniqueVariableNames s d = false) ->
   violated r s d = violated r s d'.
-Proof. intros r s d d' H Hu. apply (violated_rel true true true); [exact H|]. intros _. exact Hu. Qed.
+Proof.
+  intros r s d d' H Hu. apply (violated_rel (fun n => n) None true true true r s d d' (fun x => x));
+    [exact H|apply renames_id|apply key_injective_none|]. intros _. exact Hu.
+Qed.
 
-(* the relations are reflexive, and each is contained in [perm_lists_doc] *)
-Lemma lperm_weaken {A} b (l l' : list A) : lperm b l l' -> lperm true l l'.
-Proof. apply lperm_perm. Qed.
+Theorem violated_rename_operations : forall fo r s d d',
+  rename_ops_doc fo d d' -> injective_on fo (named_operation_names d) ->
+  violated r s d = violated r s d'.
+Proof.
+  intros fo r s d d' H Hinj. apply (violated_rel (opt_map fo) None false false false r s d d' fo);
+    [exact H|split; [reflexivity|exact Hinj]|apply key_injective_none|discriminate].
+Qed.
+
+(* (d) aliases rewritten: the field with response key k gets an alias with which its response key is h k *)
+Definition rename_aliases_doc (h : name -> name) : document -> document -> Prop :=
+  rdoc (fun n => n) (Some h) false false false.
+
+Theorem violated_rename_aliases : forall h r s d d',
+  rename_aliases_doc h d d' -> (forall a b, h a = h b -> a = b) ->
+  violated r s d = violated r s d'.
+Proof.
+  intros h r s d d' H Hinj. apply (violated_rel (fun n => n) (Some h) false false false r s d d' (fun x => x));
+    [exact H|apply renames_id|exact Hinj|discriminate].
+Qed.
+
+(* the relations are reflexive *)
 Lemma rdir_refl pa x : rdir pa x x.
 Proof. destruct x. constructor. apply lperm_refl. Qed.
 Lemma rdirs_refl pa l : rdirs pa l l.
 Proof. induction l; constructor; [apply rdir_refl|assumption]. Qed.
-Lemma rsel_refl pa ps x : rsel pa ps x x.
+Lemma rsel_refl pa ps x : rsel None pa ps x x.
 Proof.
   induction x as [p al n args dirs sp sels IH|p n dirs|p tc dirs sp sels IH] using selection_ind'.
-  - apply RField with (m := sels); [apply lperm_refl|apply rdirs_refl|apply lperm_refl|].
+  - apply RField with (m := sels); [reflexivity|apply lperm_refl|apply rdirs_refl|apply lperm_refl|].
     induction IH; constructor; assumption.
   - constructor. apply rdirs_refl.
   - apply RInline with (m := sels); [apply rdirs_refl|apply lperm_refl|]. induction IH; constructor; assumption.
 Qed.
-Lemma rsels_refl pa ps l : rsels pa ps l l.
+Lemma rsels_refl pa ps l : rsels None pa ps l l.
 Proof. exists l. split; [apply lperm_refl|]. induction l; constructor; [apply rsel_refl|assumption]. Qed.
-Lemma rdef_refl pa pv ps x : rdef pa pv ps x x.
+Lemma rfrag_refl pa ps f : rfrag None pa ps f f.
+Proof. destruct f. constructor; [apply rdirs_refl|apply rsels_refl]. Qed.
+
+(* renaming as a function: the renamed document is related to the original *)
+Definition rename_op (fo : name -> name) (o : operation) : operation :=
+  mkOperation (o_kind o) (o_pos o) (opt_map fo (o_name o)) (o_vars o) (o_dirs o) (o_span o) (o_sels o).
+Definition rename_def (fo : name -> name) (x : definition) : definition :=
+  match x with DOp o => DOp (rename_op fo o) | DFrag f => DFrag f end.
+Lemma rename_ops_doc_map fo d : rename_ops_doc fo d (map (rename_def fo) d).
 Proof.
-  destruct x as [[]|[]]; constructor; constructor;
-    first [apply lperm_refl|apply rdirs_refl|apply rsels_refl].
+  induction d as [|x d IH]; cbn [map]; constructor; [|exact IH].
+  destruct x as [o|f]; cbn [rename_def]; constructor; [|apply rfrag_refl].
+  destruct o. unfold rename_op. cbn. constructor; [apply lperm_refl|apply rdirs_refl|apply rsels_refl].
 Qed.
-Lemma rdoc_refl pa pv ps d : rdoc pa pv ps d d.
-Proof. induction d; constructor; [apply rdef_refl|assumption]. Qed.
+
+(* re-aliasing as a function *)
+Fixpoint realias_sel (h : name -> name) (x : selection) : selection :=
+  match x with
+  | SField p al n args dirs sp sels => SField p (Some (h (field_key al n))) n args dirs sp (map (realias_sel h) sels)
+  | SSpread _ _ _ => x
+  | SInline p tc dirs sp sels => SInline p tc dirs sp (map (realias_sel h) sels)
+  end.
+Definition realias_def (h : name -> name) (x : definition) : definition :=
+  match x with
+  | DOp o => DOp (mkOperation (o_kind o) (o_pos o) (o_name o) (o_vars o) (o_dirs o) (o_span o) (map (realias_sel h) (o_sels o)))
+  | DFrag f => DFrag (mkFragment (fr_pos f) (fr_name f) (fr_tc f) (fr_dirs f) (fr_span f) (map (realias_sel h) (fr_sels f)))
+  end.
+Lemma Forall2_map_r {A B} (R : A -> B -> Prop) (g : A -> B) l : Forall (fun x => R x (g x)) l -> Forall2 R l (map g l).
+Proof. induction 1; cbn [map]; constructor; assumption. Qed.
+Lemma realias_sel_rel h x : rsel (Some h) false false x (realias_sel h x).
+Proof.
+  induction x as [p al n args dirs sp sels IH|p n dirs|p tc dirs sp sels IH] using selection_ind'; cbn [realias_sel].
+  - apply RField with (m := sels); [reflexivity|reflexivity|apply rdirs_refl|reflexivity|apply Forall2_map_r, IH].
+  - constructor. apply rdirs_refl.
+  - apply RInline with (m := sels); [apply rdirs_refl|reflexivity|apply Forall2_map_r, IH].
+Qed.
+Lemma realias_sels_rel h l : rsels (Some h) false false l (map (realias_sel h) l).
+Proof.
+  exists l. split; [reflexivity|]. apply Forall2_map_r, Forall_forall. intros x _. apply realias_sel_rel.
+Qed.
+Lemma rename_aliases_doc_map h d : rename_aliases_doc h d (map (realias_def h) d).
+Proof.
+  induction d as [|x d IH]; cbn [map]; constructor; [|exact IH].
+  destruct x as [o|f]; cbn [realias_def]; constructor.
+  - destruct o. cbn. apply (ROp (fun n => n) (Some h) false false false); [reflexivity|apply rdirs_refl|apply realias_sels_rel].
+  - destruct f. cbn. constructor; [apply rdirs_refl|apply realias_sels_rel].
+Qed.
 
 (* ------------------------------------------------------------------ the model's verdicts *)
 Section Side.
+  Variable ren : option name -> option name.
+  Variable hk : option (name -> name).
   Variables pa pv ps : bool.
   Variables (s : sdocument) (d d' : document).
-  Hypothesis Hd : rdoc pa pv ps d d'.
+  Hypothesis Hd : rdoc ren hk pa pv ps d d'.
+  Variable fo : name -> name.
+  Hypothesis Hren : renames ren fo d.
 
   Lemma doc_types_proper_rel : doc_types_proper d = doc_types_proper d'.
   Proof.
-    unfold doc_types_proper. apply F2_forallb. eapply Forall2_impl_in; [|apply (rdoc_ops pa pv ps), Hd].
-    intros o o' _ H. apply forallb_perm, (lperm_perm pv), (rop_vardefs pa pv ps), H.
+    unfold doc_types_proper. apply F2_forallb. eapply Forall2_impl_in; [|apply (rdoc_ops ren hk pa pv ps), Hd].
+    intros o o' _ H. apply forallb_perm, (lperm_perm pv), (rop_vardefs ren hk pa pv ps), H.
   Qed.
   Lemma defaults_const_rel : defaults_const d = defaults_const d'.
   Proof.
     unfold C07_position_proofs.defaults_const. apply F2_forallb.
-    eapply Forall2_impl_in; [|apply (rdoc_ops pa pv ps), Hd].
-    intros o o' _ H. apply forallb_perm, (lperm_perm pv), (rop_vardefs pa pv ps), H.
+    eapply Forall2_impl_in; [|apply (rdoc_ops ren hk pa pv ps), Hd].
+    intros o o' _ H. apply forallb_perm, (lperm_perm pv), (rop_vardefs ren hk pa pv ps), H.
   Qed.
   Lemma distinct_fragments_rel : distinct_fragments d = distinct_fragments d'.
-  Proof. unfold distinct_fragments. rewrite (r_unique_fragment_names pa pv ps d d' Hd). reflexivity. Qed.
+  Proof. unfold distinct_fragments. rewrite (r_unique_fragment_names ren hk pa pv ps d d' Hd). reflexivity. Qed.
   Lemma distinct_operations_rel : distinct_operations d = distinct_operations d'.
   Proof.
-    unfold distinct_operations. rewrite (r_unique_operation_names pa pv ps d d' Hd). f_equal. f_equal.
-    pose proof (rdoc_ops pa pv ps d d' Hd) as H.
+    destruct Hren as [Hr Hi].
+    unfold distinct_operations. rewrite (r_unique_operation_names ren hk pa pv ps d d' Hd fo Hr Hi). f_equal. f_equal.
+    pose proof (rdoc_ops ren hk pa pv ps d d' Hd) as H.
     induction H as [|o o' l l' Ho _ IH]; [reflexivity|]. cbn [filter].
-    rewrite (rop_node_name _ _ _ _ _ Ho). destruct (is_none (op_node_name o')); cbn [List.length]; rewrite IH; reflexivity.
+    rewrite (rop_node_name_fo ren hk pa pv ps fo Hr _ _ Ho).
+    destruct (op_node_name o); cbn [opt_map is_none List.length]; rewrite IH; reflexivity.
   Qed.
   Lemma rule_in_scope_rel r : rule_in_scope r s d = rule_in_scope r s d'.
   Proof.
     destruct r; cbn [rule_in_scope]; try reflexivity;
-      rewrite ?distinct_fragments_rel, ?distinct_operations_rel, ?(r_no_fragment_cycles pa pv ps d d' Hd),
-              ?(r_unique_argument_names pa pv ps s d d' Hd), ?(r_variables_are_input_types pa pv ps s d d' Hd);
+      rewrite ?distinct_fragments_rel, ?distinct_operations_rel, ?(r_no_fragment_cycles ren hk pa pv ps d d' Hd),
+              ?(r_unique_argument_names ren hk pa pv ps s d d' Hd), ?(r_variables_are_input_types ren hk pa pv ps s d d' Hd);
       reflexivity.
   Qed.
   Lemma side_rel r : side r s d -> side r s d'.
   Proof.
-    intros (Hwf & Hty & Hdc & Hdf & Hdo & Hsc).
+    intros (Hwf & Hty & Hdc & Hdf & Hsc).
     rewrite doc_types_proper_rel in Hty. rewrite defaults_const_rel in Hdc.
-    rewrite distinct_fragments_rel in Hdf. rewrite distinct_operations_rel in Hdo.
+    rewrite distinct_fragments_rel in Hdf.
     rewrite (rule_in_scope_rel r) in Hsc. repeat split; assumption.
   Qed.
 End Side.
 
-Theorem run_alone_rel pa pv ps r s d d' :
+Theorem run_alone_rel ren hk pa pv ps r s d d' fo :
   r <> R_OverlappingFieldsCanBeMerged ->
   wf_schema s = true -> doc_types_proper d = true -> defaults_const d = true ->
-  distinct_fragments d = true -> distinct_operations d = true -> rule_in_scope r s d = true ->
-  rdoc pa pv ps d d' ->
+  distinct_fragments d = true -> rule_in_scope r s d = true ->
+  rdoc ren hk pa pv ps d d' -> renames ren fo d -> key_injective hk ->
   (pv = true -> r = R_VariablesInAllowedPosition -> v_unique_variable_names d = false) ->
   (run_alone r s d = [] <-> run_alone r s d' = []).
 Proof.
-  intros Hr Hwf Hty Hdc Hdf Hdo Hsc Hd Hu.
+  intros Hr Hwf Hty Hdc Hdf Hsc Hd Hren Hk Hu.
   assert (Hside : side r s d) by (repeat split; assumption).
   rewrite (nil_iff_false _ _ (rule_iff r s d Hr Hside)).
-  rewrite (nil_iff_false _ _ (rule_iff r s d' Hr (side_rel pa pv ps s d d' Hd r Hside))).
-  rewrite (violated_rel pa pv ps r s d d' Hd Hu). reflexivity.
+  rewrite (nil_iff_false _ _ (rule_iff r s d' Hr (side_rel ren hk pa pv ps s d d' Hd r Hside))).
+  rewrite (violated_rel ren hk pa pv ps r s d d' fo Hd Hren Hk Hu). reflexivity.
 Qed.
 
 Theorem run_alone_perm_arguments : forall r s d d',
   r <> R_OverlappingFieldsCanBeMerged ->
   wf_schema s = true -> doc_types_proper d = true -> defaults_const d = true ->
-  distinct_fragments d = true -> distinct_operations d = true -> rule_in_scope r s d = true ->
+  distinct_fragments d = true -> rule_in_scope r s d = true ->
   perm_args_doc d d' ->
   (run_alone r s d = [] <-> run_alone r s d' = []).
 Proof.
-  intros r s d d' Hr Hwf Hty Hdc Hdf Hdo Hsc Hd.
-  apply (run_alone_rel true false false); try assumption. discriminate.
+  intros r s d d' Hr Hwf Hty Hdc Hdf Hsc Hd.
+  apply (run_alone_rel (fun n => n) None true false false r s d d' (fun x => x)); try assumption;
+    [apply renames_id|apply key_injective_none|discriminate].
 Qed.
 
 Theorem run_alone_perm_variable_definitions : forall r s d d',
   r <> R_OverlappingFieldsCanBeMerged ->
   wf_schema s = true -> doc_types_proper d = true -> defaults_const d = true ->
-  distinct_fragments d = true -> distinct_operations d = true -> rule_in_scope r s d = true ->
+  distinct_fragments d = true -> rule_in_scope r s d = true ->
   perm_vars_doc d d' ->
   (r = R_VariablesInAllowedPosition -> violated R_UniqueVariableNames s d = false) ->
   (run_alone r s d = [] <-> run_alone r s d' = []).
 Proof.
-  intros r s d d' Hr Hwf Hty Hdc Hdf Hdo Hsc Hd Hu.
-  apply (run_alone_rel false true false); try assumption. intros _. exact Hu.
+  intros r s d d' Hr Hwf Hty Hdc Hdf Hsc Hd Hu.
+  apply (run_alone_rel (fun n => n) None false true false r s d d' (fun x => x)); try assumption;
+    [apply renames_id|apply key_injective_none|]. intros _. exact Hu.
 Qed.
 
 Theorem run_alone_perm_selections : forall r s d d',
   r <> R_OverlappingFieldsCanBeMerged ->
   wf_schema s = true -> doc_types_proper d = true -> defaults_const d = true ->
-  distinct_fragments d = true -> distinct_operations d = true -> rule_in_scope r s d = true ->
+  distinct_fragments d = true -> rule_in_scope r s d = true ->
   perm_sels_doc d d' ->
   (run_alone r s d = [] <-> run_alone r s d' = []).
 Proof.
-  intros r s d d' Hr Hwf Hty Hdc Hdf Hdo Hsc Hd.
-  apply (run_alone_rel false false true); try assumption. discriminate.
+  intros r s d d' Hr Hwf Hty Hdc Hdf Hsc Hd.
+  apply (run_alone_rel (fun n => n) None false false true r s d d' (fun x => x)); try assumption;
+    [apply renames_id|apply key_injective_none|discriminate].
 Qed.
 
-(* ------------------------------------------------------------------ the hypothesis is needed *)
+Theorem run_alone_rename_operations : forall fo r s d d',
+  r <> R_OverlappingFieldsCanBeMerged ->
+  wf_schema s = true -> doc_types_proper d = true -> defaults_const d = true ->
+  distinct_fragments d = true -> rule_in_scope r s d = true ->
+  rename_ops_doc fo d d' -> injective_on fo (named_operation_names d) ->
+  (run_alone r s d = [] <-> run_alone r s d' = []).
+Proof.
+  intros fo r s d d' Hr Hwf Hty Hdc Hdf Hsc Hd Hinj.
+  apply (run_alone_rel (opt_map fo) None false false false r s d d' fo); try assumption;
+    [split; [reflexivity|exact Hinj]|apply key_injective_none|discriminate].
+Qed.
+
+Theorem run_alone_rename_aliases : forall h r s d d',
+  r <> R_OverlappingFieldsCanBeMerged ->
+  wf_schema s = true -> doc_types_proper d = true -> defaults_const d = true ->
+  distinct_fragments d = true -> rule_in_scope r s d = true ->
+  rename_aliases_doc h d d' -> (forall a b, h a = h b -> a = b) ->
+  (run_alone r s d = [] <-> run_alone r s d' = []).
+Proof.
+  intros h r s d d' Hr Hwf Hty Hdc Hdf Hsc Hd Hinj.
+  apply (run_alone_rel (fun n => n) (Some h) false false false r s d d' (fun x => x)); try assumption;
+    [apply renames_id|discriminate].
+Qed.
+
+(* ------------------------------------------------------------------ the hypotheses are needed *)
 (* two definitions of variable $v with different types: the usage is checked against the first *)
 Definition cxv_schema : sdocument :=
   [SDType (TDObject "Query" [] [mkFD "a" [mkIV "x" (TNamed "Int") None] (TNamed "String")]);
@@ -1842,17 +2044,65 @@ Lemma perm_vars_needs_unique_variable_names :
   run_alone R_VariablesInAllowedPosition cxv_schema cxv_d2 <> [].
 Proof.
   split; [vm_compute; reflexivity|]. split.
-  - constructor; [|constructor]. constructor. constructor.
+  - constructor; [|constructor]. constructor.
+    apply (ROp (fun n => n) None false true false OpQuery cx_z (Some "Q") [cxv_v1; cxv_v2] [cxv_v2; cxv_v1]).
     + cbn [lperm]. apply perm_swap.
     + constructor.
     + apply rsels_refl.
   - repeat split; try (vm_compute; reflexivity). vm_compute. discriminate.
 Qed.
 
+(* a renaming that identifies two operation names *)
+Definition cxr_op (n : name) : definition := DOp (mkOperation OpQuery cx_z (Some n) [] [] (cx_z, cx_z) [cx_field "a"]).
+Lemma rename_needs_injective :
+  rename_ops_doc (fun _ => "Q") [cxr_op "A"; cxr_op "B"] [cxr_op "Q"; cxr_op "Q"] /\
+  violated R_UniqueOperationNames cx_schema [cxr_op "A"; cxr_op "B"] = false /\
+  violated R_UniqueOperationNames cx_schema [cxr_op "Q"; cxr_op "Q"] = true.
+Proof.
+  split; [|split; vm_compute; reflexivity].
+  exact (rename_ops_doc_map (fun _ => "Q") [cxr_op "A"; cxr_op "B"]).
+Qed.
+
+(* a re-aliasing that identifies two response keys *)
+Definition cxa_doc : document :=
+  [DOp (mkOperation OpQuery cx_z (Some "Q") [] [] (cx_z, cx_z)
+          [cx_field "a"; SField cx_z None "t" [] [] (cx_z, cx_z) [cx_field "a"]])].
+Lemma realias_needs_injective :
+  rename_aliases_doc (fun _ => "x") cxa_doc (map (realias_def (fun _ => "x")) cxa_doc) /\
+  violated R_OverlappingFieldsCanBeMerged cx_schema cxa_doc = false /\
+  violated R_OverlappingFieldsCanBeMerged cx_schema (map (realias_def (fun _ => "x")) cxa_doc) = true.
+Proof. split; [apply rename_aliases_doc_map|split; vm_compute; reflexivity]. Qed.
+
+(* the relations are not degenerate: swapping two arguments, two selections *)
+Example perm_args_example :
+  perm_args_doc [DOp (mkOperation OpQuery cx_z None [] [] (cx_z, cx_z)
+                        [SField cx_z None "f" [("x", VInt 1); ("y", VInt 2)] [] (cx_z, cx_z) []])]
+                [DOp (mkOperation OpQuery cx_z None [] [] (cx_z, cx_z)
+                        [SField cx_z None "f" [("y", VInt 2); ("x", VInt 1)] [] (cx_z, cx_z) []])].
+Proof.
+  constructor; [|constructor]. constructor.
+  apply (ROp (fun n => n) None true false false OpQuery cx_z None [] []); [reflexivity|constructor|].
+  eexists. split; [reflexivity|]. constructor; [|constructor].
+  apply RField with (m := []); [reflexivity|apply perm_swap|constructor|reflexivity|constructor].
+Qed.
+Example perm_sels_example :
+  perm_sels_doc [DOp (mkOperation OpQuery cx_z None [] [] (cx_z, cx_z) [cx_field "a"; SSpread cx_z "F" []])]
+                [DOp (mkOperation OpQuery cx_z None [] [] (cx_z, cx_z) [SSpread cx_z "F" []; cx_field "a"])].
+Proof.
+  constructor; [|constructor]. constructor.
+  apply (ROp (fun n => n) None false false true OpQuery cx_z None [] []); [reflexivity|constructor|].
+  exists [SSpread cx_z "F" []; cx_field "a"]. split; [apply perm_swap|].
+  constructor; [apply rsel_refl|constructor; [apply rsel_refl|constructor]].
+Qed.
+
 Print Assumptions violated_perm_arguments.
 Print Assumptions violated_perm_variable_definitions.
 Print Assumptions violated_perm_selections.
 Print Assumptions violated_perm_lists.
+Print Assumptions violated_rename_operations.
+Print Assumptions violated_rename_aliases.
 Print Assumptions run_alone_perm_arguments.
 Print Assumptions run_alone_perm_variable_definitions.
 Print Assumptions run_alone_perm_selections.
+Print Assumptions run_alone_rename_operations.
+Print Assumptions run_alone_rename_aliases.
